@@ -166,7 +166,10 @@ def shard(shard_no, nshards, seed, tier, extra):
     d = common.Driver("rel", shim=False)
     B = evm.boundary_constants()
     for i in range(n):
-        code, g = progs.straightline(rng, B, allow={"max_jumpi": 5, "bad_jumps": True})
+        allow = {"max_jumpi": 5, "bad_jumps": True}
+        if rng.random() < 0.04:
+            allow["far"] = True
+        code, g = progs.straightline(rng, B, allow=allow)
         gi = {"mem_offsets": g.mem_offsets, "features": g.features}
         if rng.random() < 0.03:
             # the same program inside a long code blob (unreachable padding behind a STOP): CODESIZE, PC and every
